@@ -482,6 +482,14 @@ def c14_solve_case(case, T, grids=None):
             e = relerr(got['rho2_after_func'], got['rho2'])
             T.check(e <= 1e-13, cs, '%s: a discrete solve after a function solve on the same object differs from the earlier one by %.3e' % (desc, e), pre + 'repeated_call')
         # (h) process-grid independence
+        for k2, k in (('second_pert_eqp', 'pert_eqp'), ('second_rho_F1', 'rho_F1')):
+            if k2 in got:
+                e = relerr(got[k2].real, exp[k], scales[k])
+                T.check(e <= tol, dict(cs, second_grid=[g[1], g[0]]),
+                        '%s: the same DensityFinder used afterwards on grids distributed over process grid %s: %s differs from the exact '
+                        'integral%s: %.3e relative to the scale %.3g (tolerance %.1e)%s'
+                        % (desc, [g[1], g[0]], names[k], ' minus the equilibrium integral at the own radius' if k.startswith('pert') else '',
+                           e, scales[k], tol, _c16_diag(got[k2].real, exp[k])), 'finder_reuse')
         if first is None:
             first = (g, got)
         else:
@@ -1198,6 +1206,19 @@ def c16_job(case, grid, prof):
             run('reuse_b', prof['Feqp'], True)
             DiffEqSolver.getModes(rho)
             run('reuse_c', prof['F1'], False)
+        # the SAME finder on a second pair of grids whose radial blocks start elsewhere (process grid transposed): the
+        # equilibrium subtracted must be that of each point's own radius on the new decomposition too
+        g2 = (grid[1], grid[0])
+        if g2 != tuple(grid) and g2[0] <= min(case['nr'], case['ntheta']) and g2[1] <= case['nz'] \
+                and not (case.get('all_layouts') and max(g2) > case['nv']):
+            _, _, _, f2, rho2, _, _ = c16_objects(case, g2, comm)
+            f2.getAllData()[:] = local_block(prof['Feqp'], f2.getLayout('v_parallel'))
+            rho2.getAllData()[:] = -55.0 + (3.0j if case['dtype'] == 'complex' else 0.0)
+            df.getPerturbedRho(f2, rho2)
+            out['second_pert_eqp'] = block_of(rho2)
+            f2.getAllData()[:] = local_block(prof['F1'], f2.getLayout('v_parallel'))
+            df.getRho(f2, rho2)
+            out['second_rho_F1'] = block_of(rho2)
         out.setdefault('flags', [])
         out['consts'] = constants_dict(consts)
         return out
@@ -1271,7 +1292,7 @@ def c16_case(case, T):
         if first is None:
             first = (g, got)
         else:
-            e = max(relerr(got[k], first[1][k], scales.get(k, 1.0)) for k in exp)
+            e = max(relerr(got[k], first[1][k], scales.get(k, 1.0)) for k in exp if k in got and k in first[1])
             T.check(e <= 1e-14, dict(case, grids=[list(first[0]), list(g)]),
                     '%s: densities differ from those on process grid %s by %.3e' % (desc, list(first[0]), e), 'process_grid')
     return True
